@@ -16,7 +16,12 @@ life run <seeks|noseeks> <mode> <bg> <frozen> <due> <tx> <ev>*
          | iter-live.<method>:<p> | iter-released.<method>:<p> | iter-released-used.<method>:<p>
          | bgFlush:<p> | bgCompact:<p> | mark
       the flag says whether a mutating storage action was emitted after the last `mark` (or since the start)
+life quiet <seeks|noseeks> <mode> <bg> <frozen> <due> <tx> <ev>*
+                                                ⇒ <mode> <mut|nomut>             the same run, reporting only what an
+                                                                                 outside observer sees
 ```
+The machine runs in the configuration of the code as it is (`Life.codeCfg`: whether `tCompaction` parks on a
+read-only DB is the regenerated fact `Gen.roCompactionParks`).
 `<mode>`   openRW | openRW+tx (a transaction is open) | openRO | switchedRO | closed
 `<recv>`   db | snap-live | snap-released | tx-live | tx-committed | tx-discarded | iter-live | iter-released |
            iter-released-used      (for `closed`, `tx-live` means: live when `Close` was called)
@@ -182,8 +187,18 @@ def handleLife : List String → Option String
     let due ← due.toNat?
     let tx ← parseTxSt tx
     let es ← evs.mapM parseRunEv
-    let (s, f) := runMarked ⟨sk⟩ ⟨md, bg, fr, due, 0, tx⟩ false es
+    let (s, f) := runMarked (codeCfg sk) ⟨md, bg, fr, due, 0, tx, false⟩ false es
     pure s!"{modeStr s.mode} frozen={b2n s.frozen} due={s.due} pins={s.pins} tx={txStr s.tx} {if f then "mut" else "nomut"}"
+  | "quiet" :: seeks :: mode :: bg :: frozen :: due :: tx :: evs => do
+    let sk ← (match seeks with | "seeks" => some true | "noseeks" => some false | _ => none)
+    let (md, _) ← parseMode mode
+    let bg ← lifeBit bg
+    let fr ← lifeBit frozen
+    let due ← due.toNat?
+    let tx ← parseTxSt tx
+    let es ← evs.mapM parseRunEv
+    let (s, f) := runMarked (codeCfg sk) ⟨md, bg, fr, due, 0, tx, false⟩ false es
+    pure s!"{modeStr s.mode} {if f then "mut" else "nomut"}"
   | [mode, recv, method] => do
     let (md, txl) ← parseMode mode
     match ← lookup md txl recv method with
